@@ -175,3 +175,6 @@ func verifBlockUntil(cond func() bool) {
 		time.Sleep(time.Microsecond)
 	}
 }
+
+// intrinsic: is the mutex at p write-locked right now.
+func verifMutexHeld(p interface{}) bool { return true }
